@@ -94,9 +94,14 @@ package peer
 //@ lemma sign-verify-roundtrip: forall k bytes, c string, t int, d bytes :: edVerify(pubOf(k), signBody(c, t, d), edSign(k, signBody(c, t, d)))
 
 // ---- C13: key derivation is total (no panic for any context/salt/output buffer) ----
+// C13 (determinism): on success every byte of out is output of the BLAKE3 derive-key hasher for this
+// context, fed the fixed prefix, the salt and the key material - and nothing else.
 //@ func DeriveKey
 //@   modifies out
 //@   requires privKeyOK(privKey)
+//@   assert at call! Read: same(arg0, out) && dctx[recv] == context && dpos[recv] == 0
+//@   assert at call! Read: dpre[recv] == "bifrost/peer/derive-key" ++ content(salt) ++ content(material)
+//@   assert at exit: ret == nil ==> content(out) == b3xof(context, atcall(Read, dpre[recv]), 0, len(out))
 
 //@ func DeriveEd25519Key
 //@   noframe
